@@ -3,6 +3,7 @@ mod c05;
 mod sexp;
 mod lexutil;
 mod nf;
+mod optable;
 mod pipe;
 mod util;
 
@@ -22,6 +23,10 @@ fn main() {
         "c04" => c04::run(&tier, seed),
         "c05" => c05::run(&tier, seed),
         "pipe" => pipe::run(&tier, seed),
+        "optable" => {
+            optable::run();
+            return;
+        }
         "nf" => {
             use std::io::Read;
             let mut src = String::new();
